@@ -287,6 +287,15 @@ let flag_stream oc =
                         [ M.NIf ([ (var "f", [ text "T" ]); (var "g", [ text "G" ]) ], Some [ text "F" ]); M.NSet (bs "g", var "f"); M.NSet (bs "f", l1) ], None) ]);
     "after-loop", (fun l0 l1 -> [ M.NSet (bs "f", l0); M.NFor (None, bs "x", items, [ M.NSet (bs "f", l1) ], None); M.NIf ([ (var "f", [ text "T" ]) ], Some [ text "F" ]) ]);
     "before-and-after", (fun l0 l1 -> [ M.NSet (bs "f", l0); M.NIf ([ (var "f", [ text "T" ]) ], Some [ text "F" ]); M.NSet (bs "f", l1); M.NIf ([ (var "f", [ text "T" ]) ], Some [ text "F" ]) ]);
+    "first-set-in-inner-loop", (fun l0 l1 -> [ M.NFor (None, bs "x", items,
+                        [ M.NFor (None, bs "y", M.EArr [ lit_int 1; lit_int 2 ], [ M.NSet (bs "found", l1); M.NSet (bs "other", l0) ], None); text "["; print (var "found"); text "]" ], None);
+                        text "|"; print (var "found"); text "|"; print (var "other"); M.NIf ([ (var "found", [ text "T" ]) ], Some [ text "F" ]) ]);
+    "first-set-in-second-loop", (fun l0 l1 -> [ M.NFor (None, bs "x", M.EArr [ lit_int 1 ], [ text "." ], None);
+                        M.NFor (None, bs "y", M.EArr [ lit_int 1; lit_int 2 ], [ M.NIf ([ (var "seen", [ text "s" ]) ], Some [ text "n" ]); M.NSet (bs "seen", l1) ], None);
+                        text "|"; print (var "seen"); M.NSet (bs "later", var "seen"); print (var "later"); M.NSet (bs "unused", l0); M.NIf ([ (var "seen", [ text "T" ]) ], Some [ text "F" ]) ]);
+    "first-set-in-loop-in-if", (fun l0 l1 -> [ M.NFor (None, bs "x", M.EArr [ lit_int 1; lit_int 2 ],
+                        [ M.NIf ([ (var "go", [ M.NFor (None, bs "y", M.EArr [ lit_int 7 ], [ M.NSet (bs "deep", l1) ], None) ]) ], Some [ M.NSet (bs "deep", l0) ]); print (var "deep") ], None);
+                        text "|"; print (var "deep") ]);
     "in-if", (fun l0 l1 -> [ M.NSet (bs "f", l0); M.NIf ([ (var "go", [ M.NSet (bs "f", l1) ]) ], None); M.NIf ([ (var "f", [ text "T" ]) ], Some [ text "F" ]) ]);
   ] in
   List.iter (fun (_, mk) ->
